@@ -368,3 +368,9 @@ func Parse(src string, lexFuel int) (res ParseResult) {
 // loop consumes one rune per iteration except at end of input, and the parser
 // re-lexes nothing (tokens are cached), so 4*(n+4) separates slow from never.
 func DefaultLexFuel(n int) int { return 4 * (n + 4) }
+
+// ParseFuel is the budget of parser.Parse for an input of n bytes, counted in
+// lexer loop iterations plus TLexer.Next and TLexer.Snapshot calls. Measured
+// on the pinned grammar the count is linear, at most about 50 per byte
+// (deeply nested brackets); 2000 per byte only has to separate slow from never.
+func ParseFuel(n int) int { return 2000 * (n + 8) }
